@@ -81,5 +81,25 @@ def run(ctx):
     n = T + "visitor::StaticResourceMovementsVisitor::resolve_native_invocation"
     if ctx.anchor(n):
         check_no_live_otherwise(ctx, "resolve|InvocationKind-exhaustive", ctx.body(n), r"::InvocationKind$", "match on InvocationKind")
+    ctx.rule("argument origin (conservative default, per account): when a resource first becomes individually tracked in AllBalanceChanges its "
+             "`deposited` bounds start from the account's earlier deposits of *unknown* resources (unspecified_resource_deposits.resource_bounds()), "
+             "never from zero/default — an unknown deposit may have contained that resource")
+    n2 = T + "types::AllBalanceChanges::aggregated_balance_change_mut"
+    if ctx.anchor(n2):
+        ok, site = False, None
+        defaults = []
+        for b in ctx.bodies_of(n2):
+            defaults += b.calls(r"Entry(<[^>]*>)?::or_default$|Entry(<[^>]*>)?::or_insert_with$|Default>::default$")
+            for i in range(b.n):
+                for st in b.stmts(i):
+                    if st["k"] == "=" and st["rv"]["k"] == "agg" and (st["rv"].get("adt") or "").endswith("::AggregatedBalanceChange"):
+                        f_ops = dict(zip(st["rv"].get("fields", []), st["rv"]["ops"]))
+                        if "deposited" in f_ops:
+                            site = b.loc(i)
+                            ok = any(x.endswith("::resource_bounds") for x in origin_names(b, f_ops["deposited"]))
+        dep_default = [t for _, t in defaults if not t["f"].endswith("Default>::default")]
+        ctx.ob("account-changes|new-resource-inherits-unknown-deposits", ok and not dep_default,
+               "a newly tracked resource's deposited bounds originate from unspecified_resource_deposits.resource_bounds()" if ok and not dep_default else
+               "a newly tracked resource starts from a default (zero) deposit: earlier unknown deposits to the account are forgotten", site or "")
     ctx.assume("that each typed invocation's declared output bounds are themselves right (amounts, ids), and that executions stay within the reported "
                "bounds, is semantic and NOT decided; only the two conservative-default clauses above")
